@@ -224,13 +224,15 @@ type Sim struct {
 
 	schedHash uint64
 	logHash   uint64
-	stateSigs map[uint64]struct{}
-	probes    map[string]int
-	faults    map[string]int
+	stateSigs []uint64
+	probes    counters
+	faults    counters
 	log       []string
 
-	// registry of held simulated locks (for leak detection)
-	locks map[interface{}]string
+	// registry of held simulated locks (for leak detection); no Go maps in
+	// state that several tasks touch: the runtime's map code carries race
+	// detector hooks even when the calling package is not instrumented
+	locks []heldLock
 
 	// StateSig, if set, is called at every switch to fold a world-specific
 	// abstract state into the reach measure.
@@ -363,10 +365,6 @@ func Run(cfg Config, setup func(s *Sim), director func(s *Sim)) *Result {
 		cfg:       cfg,
 		rng:       splitmix(cfg.Seed),
 		endCh:     make(chan struct{}, 1),
-		stateSigs: map[uint64]struct{}{},
-		probes:    map[string]int{},
-		faults:    map[string]int{},
-		locks:     map[interface{}]string{},
 		replay:    cfg.Replay,
 		Values:    map[string]interface{}{},
 		schedHash: 14695981039346656037,
@@ -393,21 +391,19 @@ func Run(cfg Config, setup func(s *Sim), director func(s *Sim)) *Result {
 	r.Trace = Trace{Len: s.draws, Idx: s.tIdx, Val: s.tVal}
 	r.SchedHash = s.schedHash
 	r.LogHash = s.logHash
-	r.StateSigs = s.stateSigs
-	r.Probes = s.probes
-	r.Faults = s.faults
+	r.StateSigs = map[uint64]struct{}{}
+	for _, h := range s.stateSigs {
+		r.StateSigs[h] = struct{}{}
+	}
+	r.Probes = s.probes.toMap()
+	r.Faults = s.faults.toMap()
 	r.Log = s.log
 	for _, t := range s.tasks {
 		if t.state != tDone {
 			r.Left = append(r.Left, TaskInfo{ID: t.ID, Name: t.Name, Lib: t.Lib, Runnable: t.state == tRunnable, Wait: t.waitKind.String(), Info: t.waitInfo})
 		}
 	}
-	var held []string
-	for _, n := range s.locks {
-		held = append(held, n)
-	}
-	sort.Strings(held)
-	r.HeldLocks = held
+	r.HeldLocks = s.HeldLocks()
 	return r
 }
 
@@ -631,7 +627,7 @@ func (s *Sim) noteSwitch(from, to *Task, k YieldKind) {
 	h = (h ^ uint64(k)) * 1099511628211
 	s.schedHash = h
 	if s.StateSig != nil {
-		s.stateSigs[s.StateSig()] = struct{}{}
+		s.stateSigs = append(s.stateSigs, s.StateSig())
 	}
 }
 
@@ -882,21 +878,72 @@ func (s *Sim) Logf(format string, args ...interface{}) {
 // Verbose reports whether a textual log is kept.
 func (s *Sim) Verbose() bool { return s.cfg.Verbose }
 
+type counter struct {
+	name string
+	n    int
+}
+
+type counters []counter
+
+func (c *counters) inc(name string) {
+	for i := range *c {
+		if (*c)[i].name == name {
+			(*c)[i].n++
+			return
+		}
+	}
+	*c = append(*c, counter{name, 1})
+}
+
+func (c counters) toMap() map[string]int {
+	m := map[string]int{}
+	for _, x := range c {
+		m[x.name] = x.n
+	}
+	return m
+}
+
+type heldLock struct {
+	l   interface{}
+	who string
+}
+
 // Probe counts a "this rare condition was reached" event.
-func (s *Sim) Probe(name string) { s.probes[name]++ }
+func (s *Sim) Probe(name string) { s.probes.inc(name) }
 
 // Fault counts a fault that actually fired.
-func (s *Sim) Fault(kind string) { s.faults[kind]++ }
+func (s *Sim) Fault(kind string) { s.faults.inc(kind) }
 
 // LockHeld / LockFree maintain the registry of held simulated locks.
-func (s *Sim) LockHeld(l interface{}, who string) { s.locks[l] = who }
-func (s *Sim) LockFree(l interface{})             { delete(s.locks, l) }
+func (s *Sim) LockHeld(l interface{}, who string) {
+	for i := range s.locks {
+		if s.locks[i].l == l {
+			s.locks[i].who = who
+			return
+		}
+	}
+	s.locks = append(s.locks, heldLock{l, who})
+}
+
+func (s *Sim) LockFree(l interface{}) {
+	for i := range s.locks {
+		if s.locks[i].l == l {
+			// (manual shift: runtime.slicecopy carries race detector hooks)
+			for j := i; j+1 < len(s.locks); j++ {
+				s.locks[j] = s.locks[j+1]
+			}
+			s.locks[len(s.locks)-1] = heldLock{}
+			s.locks = s.locks[:len(s.locks)-1]
+			return
+		}
+	}
+}
 
 // HeldLocks lists the holders of all simulated locks that are currently held.
 func (s *Sim) HeldLocks() []string {
 	var out []string
-	for _, n := range s.locks {
-		out = append(out, n)
+	for _, h := range s.locks {
+		out = append(out, h.who)
 	}
 	sort.Strings(out)
 	return out
